@@ -34,7 +34,8 @@ type c10Imp struct {
 	nops     int
 }
 
-func (s *c10Imp) Act(ctx context.Context, token int32, kind int32, code int32, msg string, sleepMs int32, echo *string) (int32, error) {
+// the script, shared by the functions of every shape
+func (s *c10Imp) do(ctx context.Context, token, kind, code int32, msg string, sleepMs int32) (ret int32, echo string, n int32, err error) {
 	s.mu.Lock()
 	s.started[token]++
 	s.mu.Unlock()
@@ -48,15 +49,48 @@ func (s *c10Imp) Act(ctx context.Context, token int32, kind int32, code int32, m
 	}
 	switch kind {
 	case c10KTarsErr:
-		return 0, &tars.Error{Code: code, Message: msg}
+		return 0, "", 0, &tars.Error{Code: code, Message: msg}
 	case c10KPlain:
-		return 0, errors.New(msg)
+		return 0, "", 0, errors.New(msg)
 	case c10KOkCtx:
 		current.SetResponseContext(ctx, map[string]string{"rc": msg})
 		current.SetResponseStatus(ctx, map[string]string{"rs": msg})
 	}
-	*echo = "e:" + msg
-	return code, nil
+	return code, "e:" + msg, token ^ 0x5a5a, nil
+}
+
+func (s *c10Imp) Act(ctx context.Context, token int32, kind int32, code int32, msg string, sleepMs int32, echo *string) (int32, error) {
+	ret, e, _, err := s.do(ctx, token, kind, code, msg, sleepMs)
+	if err == nil {
+		*echo = e
+	}
+	return ret, err
+}
+
+func (s *c10Imp) Notify(ctx context.Context, token int32, kind int32, code int32, msg string, sleepMs int32) error {
+	_, _, _, err := s.do(ctx, token, kind, code, msg, sleepMs)
+	return err
+}
+
+func (s *c10Imp) Fetch(ctx context.Context, token int32, kind int32, code int32, msg string, sleepMs int32, echo *string, n *int32) error {
+	_, e, nn, err := s.do(ctx, token, kind, code, msg, sleepMs)
+	if err == nil {
+		*echo, *n = e, nn
+	}
+	return err
+}
+
+func (s *c10Imp) Calc(ctx context.Context, token int32, kind int32, code int32, msg string, sleepMs int32) (int32, error) {
+	ret, _, _, err := s.do(ctx, token, kind, code, msg, sleepMs)
+	return ret, err
+}
+
+func (s *c10Imp) Mixed(ctx context.Context, token int32, echo *string, kind int32, code int32, n *int32, msg string, sleepMs int32) (int32, error) {
+	ret, e, nn, err := s.do(ctx, token, kind, code, msg, sleepMs)
+	if err == nil {
+		*echo, *n = e, nn
+	}
+	return ret, err
 }
 
 func (s *c10Imp) Nop(ctx context.Context) error {
@@ -329,7 +363,7 @@ func c10RunOnce(s *c10Scn, addr string, imp *c10Imp) error {
 		if q.PType != 1 {
 			wantReplies++
 		}
-		if c10Dispatched(s.Cfg, q) && q.Func == "act" && c10IsKnownVer(q.Ver) {
+		if c10Dispatched(s.Cfg, q) && c10Scripted(q.Func) && c10IsKnownVer(q.Ver) {
 			wantCalls = append(wantCalls, q.Token)
 		}
 		if int(q.SleepMs) > longest {
